@@ -147,7 +147,7 @@ FUNCS = ['controller.Controller.reduce_rho', 'solver.solve_main']
 
 
 def harnesses(tier, seed):
-    hs = list(step.step_harnesses(tier, seed, 'C18'))
+    hs = list(step.step_harnesses(tier, seed, 'C18') + step.action_harnesses(tier, seed, 'C18'))
     hs.append(Harness("initial-radius", 'dfverif.checks.c18', 'body_initial_radius', params={}, cfg=core.Cfg(qtimeout_ms=20000),
                       functions=['solver.solve'], bounds="n=1, unconstrained, any rhobeg > rhoend > 0",
                       assumptions=["solve_main stubbed (records the rhobeg it is given; delta starts as rhobeg)"],
